@@ -85,6 +85,8 @@ def main():
         if r >= EXTRA_BASE:
             return extras[r - EXTRA_BASE]
         rng = SimRng(args.seed, 'world', args.world, 'run', r)
+        if args.variant and hasattr(mod, 'gen_for_variant'):
+            return mod.gen_for_variant(rng, args.tier, args.variant)
         return mod.gen(rng, args.tier)
 
     def exec_one(cfg, ops, variant=None):
